@@ -1,7 +1,24 @@
-"""C12 - pitch, key, duration and time-unit conversions are mutually consistent."""
+"""C12 - pitch, key, duration and time-unit conversions are mutually consistent.
+
+Readings (where the property text leaves room):
+
+* "for scalars and arrays alike" / number types (round 5).  The VALUES are what counts: a conversion called with a
+  number held in another type (Python int/float, numpy signed and unsigned integers of every width, float32/64, 0-d
+  arrays, 1-d arrays where the function is written for arrays) returns the value it returns for the same value as a
+  Python number (float32 data: to float32 precision).  Only types that hold the argument exactly are used; for
+  `pitch_spelling_to_midi_pitch` also the result must fit the narrowest integer type of its arguments (the sum is
+  formed in that type).  NumPy's own refusal to combine a Python integer with a type that cannot hold it
+  (OverflowError) is a rejection, not a different value, and is not reported; any other exception is.
+* "unknown modes are rejected": a string other than 'major' / 'minor' / 'none' and a number other than 1 / -1.  The
+  numbers 1.0 and True ARE 1 for Python; nothing is demanded for them except that, if accepted, they mean major.
+* Tuplet ratios "carry their defined values": duration_multiplier = normal_notes * dur(normal_type) /
+  (actual_notes * dur(actual_type)) exactly (a Fraction), for every pair of note types; with both types absent
+  normal_notes / actual_notes.
+"""
 import itertools
 import copy
 import math
+import numbers
 from fractions import Fraction
 
 import numpy as np
@@ -11,15 +28,26 @@ from core import Eval
 
 PROPERTY = "C12"
 DRIVER = "drv_c12"
-PROPS = ["PartituraModel.Props.C12", "PartituraModel.Props.C12Real"]
+PROPS = ["PartituraModel.Props.C12", "PartituraModel.Props.C12Real", "PartituraModel.Props.C12Ext"]
 TRUSTED = [
-    "Python str.lower/upper/strip, re for NOTE_NAME_PATT (modelled as a scanner)",
+    "Python str.lower/upper/strip/count, int() on [+-]digits, re for NOTE_NAME_PATT (modelled as a scanner over the "
+    "character classes read off the pattern by re's own parser)",
+    "Python `x in (tuple)` is membership under == with numbers compared by value (1 == 1.0 == True)",
     "binary64 evaluation of 1e6*ppq*t/mpq before np.round (model exact; x.5 boundaries judged by the oracle only)",
-    "frequency<->pitch identity is a theorem over the reals; binary64 log2/pow compared exhaustively on 0..127 only",
+    "numpy pow / log2 are accurate to 1% in the frequency and 0.01 in log2 (they are to ~1e-15): under that margin "
+    "freq_pitch_stable proves the inversion; compared on MIDI -36..179 x seven tunings x every number type",
+    "NumPy promotion rules (NEP 50) for the typed-argument cases: observed, not modelled (the model works on values)",
 ]
-PARTIAL = ["freq_pitch: real-number theorem, implementation compared on MIDI 0..127 x a4 in {415,440,442}"]
+PARTIAL = [
+    "freq_pitch: theorems over the reals (exact inverse; inverse under 1% / 0.01 perturbation); that the binary64 "
+    "library functions stay inside the margin is trusted, not proved",
+    "number types: the theorems are about VALUES (Int / Rat); that each NumPy type is converted to its value before "
+    "the arithmetic is checked by the `ty` cases only",
+]
 RULE = ("exhaustive finite domains named by the property (steps x alter -3..3 x octaves -1..9, MIDI -24..260, "
-        "note-name grammar up to 3 accidentals, fifths -24..24 x mode spellings, units x dots, interval classes) "
+        "note-name grammar up to 3 accidentals, fifths -24..24 x mode spellings of every Python type, units x dots, "
+        "interval classes, all 15 x 15 (type | absent) tuplet pairs x counts 0..13, ensure_pitch_spelling_format "
+        "argument kinds, keyword defaults) x the number types of every numeric argument (12 types, scalar / 0-d / 1-d) "
         "plus seeded random ppq/mpq/time triples; distinct = distinct request line; non-trivial = not an error case")
 
 STEPS = "CDEFGAB"
@@ -29,6 +57,99 @@ MIN = ["Ab", "Eb", "Bb", "F", "C", "G", "D", "A", "E", "B", "F#", "C#", "G#", "D
 MODES = ["minor", -1, "major", None, "none", 1]
 BADMODES = ["dorian", 0, 2, "Major", ""]
 ACC = {"": 0, "#": 1, "x": 2, "##": 2, "###": 3, "b": -1, "bb": -2, "bbb": -3}
+# extra mode spellings (round 5): strings that only LOOK like the accepted numbers / None, numbers of other types
+MODES_TYPED = [1.0, -1.0, True]           # equal to 1 / -1 for Python: accepted or not, never another mode
+BADMODES2 = ["1", "-1", "None", "MINOR", " minor", "maj", "min", 1.5, -2, False, 0.0]
+# note values in quarters (the oracle's own table, not read from partitura)
+VAL = {"long": Fraction(16), "breve": Fraction(8), "whole": Fraction(4), "half": Fraction(2), "h": Fraction(2),
+       "quarter": Fraction(1), "q": Fraction(1), "eighth": Fraction(1, 2), "e": Fraction(1, 2), "16th": Fraction(1, 4),
+       "32nd": Fraction(1, 8), "64th": Fraction(1, 16), "128th": Fraction(1, 32), "256th": Fraction(1, 64)}
+DM = [Fraction(1), Fraction(3, 2), Fraction(7, 4), Fraction(15, 8)]
+# sign strings of ensure_pitch_spelling_format the oracle knows the meaning of
+SIGNS = {"n": 0, "#": 1, "x": 2, "##": 2, "###": 3, "b": -1, "bb": -2, "bbb": -3, "s": 1, "ss": 2, "f": -1, "ff": -2,
+         "ns": 1, "nf": -1}
+
+INT_T = ["int8", "int16", "int32", "int64", "uint8", "uint16", "uint32", "uint64"]
+FLT_T = ["float32", "float64"]
+ALL_T = ["int", "float"] + INT_T + FLT_T
+
+
+def fits(v, t):
+    """can the type named t hold the Python number v exactly"""
+    if t is None:
+        return True
+    if t == "bool":
+        return v in (0, 1)
+    if t == "int":
+        return float(v).is_integer()
+    if t in ("float", "float64"):
+        return True
+    if t == "float32":
+        return float(np.float32(v)) == float(v)
+    ii = np.iinfo(t)
+    return float(v).is_integer() and ii.min <= v <= ii.max
+
+
+def mk(v, t, form="s"):
+    """the Python number v held in type t (form 0d: a 0-d array of that dtype)"""
+    if t is None:
+        return v
+    if t == "int":
+        return int(v)
+    if t == "float":
+        return float(v)
+    if t == "bool":
+        return bool(v)
+    x = getattr(np, t)(v)
+    return np.array(x) if form == "0d" else x
+
+
+def lit(x):
+    """typed wire token of a Python value as `==` sees it: None, a string, a number by value"""
+    if x is None:
+        return "-"
+    if isinstance(x, str):
+        return "s:" + W.s(x)
+    return "n:" + W.q(W.as_fraction(x))
+
+
+def norm(x):
+    """value of a result, whatever the container / number type"""
+    if x is None or isinstance(x, str):
+        return x
+    if isinstance(x, (bool, np.bool_)):
+        return ("n", Fraction(int(x)))
+    if isinstance(x, Fraction):
+        return ("n", x)
+    if isinstance(x, (numbers.Integral, np.integer)):
+        return ("n", Fraction(int(x)))
+    if isinstance(x, (float, np.floating)):
+        f = float(x)
+        return ("n", Fraction(*f.as_integer_ratio())) if math.isfinite(f) else ("x", repr(f))
+    if isinstance(x, np.ndarray):
+        return norm(x.item()) if x.ndim == 0 else tuple(norm(v) for v in x.tolist())
+    if isinstance(x, (tuple, list)):
+        return tuple(norm(v) for v in x)
+    return ("x", repr(x))
+
+
+def same(a, b, tol):
+    if isinstance(a, tuple) and isinstance(b, tuple) and len(a) == 2 and len(b) == 2 and a[0] == "n" and b[0] == "n":
+        return abs(a[1] - b[1]) <= tol * max(1, abs(b[1]))
+    if isinstance(a, tuple) and isinstance(b, tuple):
+        return len(a) == len(b) and all(same(x, y, tol) for x, y in zip(a, b))
+    return a == b
+
+
+def _txt(n):
+    """canonical driver text of a normalised value"""
+    if n is None:
+        return "-"
+    if isinstance(n, str):
+        return n
+    if n[0] == "n":
+        return W.q(n[1])
+    return W.f_tuple(*[_txt(x) for x in n])
 
 
 def cases(rng, tier):
@@ -56,11 +177,18 @@ def cases(rng, tier):
     for f in range(-24, 25):
         for m in MODES + BADMODES:
             yield {"k": "f2k", "f": f, "mode": m}
+    for f in (-8, -7, -1, 0, 3, 7, 8):
+        for m in MODES_TYPED + BADMODES2:
+            yield {"k": "f2k", "f": f, "mode": m}
     # 5. key names
     for nm in MAJ + [k + "m" for k in MIN] + ["Fb", "E#", "B#", "Fbm", "E#m", "Cbm", "H", "", "m", "Xm", "C##", "Abbm"]:
         yield {"k": "k2f", "name": nm}
+    for root in "ABCDEFGHabcdefg":
+        for acc in ["", "#", "b", "##", "bb", "#b", "b#", "###", "bbb", "x"]:
+            for suf in ["", "m", "M", "maj", "min", "mm", " m", "-"]:
+                yield {"k": "k2f", "name": root + acc + suf}
     # 6. codes
-    for m in MODES + BADMODES:
+    for m in MODES + BADMODES + MODES_TYPED + BADMODES2:
         yield {"k": "mode", "mode": m}
     for c in ["G", "F", "C", "percussion", "TAB", "jianpu", "none", "g", "X", ""]:
         yield {"k": "clef", "sign": c}
@@ -102,6 +230,51 @@ def cases(rng, tier):
     for (a, n) in [(3, 2), (5, 4), (6, 4), (7, 8), (2, 3), (9, 8)]:
         for at, nt in [("eighth", "eighth"), ("eighth", "quarter"), ("16th", "eighth"), ("quarter", "16th")]:
             yield {"k": "tup", "actual": a, "normal": n, "at": at, "nt": nt}
+    # 9c. Tuplet.duration_multiplier on the whole table: every (type | absent) pair x actual 0..13 x normal 0..13
+    tys = types + [None]
+    for at in tys:
+        for nt in tys + (["foo"] if at == "quarter" else []):
+            for a in range(0, 14):
+                yield {"k": "tupx", "at": at, "nt": nt, "actual": a, "normals": list(range(0, 14))}
+    # 9d. ensure_pitch_spelling_format: every kind of step / alter / octave argument
+    alters = ([{"t": "sign", "v": x} for x in list(SIGNS) + ["-", "", "N", "####", "bbbb", "#b", "1"]]
+              + [{"t": "int", "v": x} for x in (-3, -1, 0, 1, 2, 7)]
+              + [{"t": "float", "v": x} for x in (1.0, -2.0, 1.5, -1.5, 0.25)] + [{"t": "none", "v": None}])
+    octs = ([{"t": "str", "v": x} for x in ("-", "4", "-1", "+3", "04", "x", "", "4.5")]
+            + [{"t": "int", "v": x} for x in (-1, 0, 4, 12)] + [{"t": "float", "v": x} for x in (4.0, 3.9, -0.5)]
+            + [{"t": "none", "v": None}])
+    for st in ["C", "c", "b", "G", "r", "R", "H", "", "CC", "rr", " c"]:
+        for al in alters:
+            for oc in octs:
+                yield {"k": "epsf", "step": st, "alter": al, "oct": oc}
+    # 9e. step2pc, Note.alter_sign, format_symbolic_duration (and the unit string it prints, read back as a tempo unit)
+    for st in list(STEPS) + ["c", "H", ""]:
+        for al in range(-14, 15):
+            yield {"k": "pc", "step": st, "alter": al}
+    for al in [None, -3, -2, -1, 0, 1, 2, 3]:
+        for st in "CG":
+            yield {"k": "asign", "step": st, "alter": al, "oct": 4}
+    yield {"k": "fsd", "sd": None}
+    for ty in types + [None, "", "foo"]:
+        for dots in (None, 0, 1, 2, 3, 5):
+            for (a, n) in [(None, None), (3, 2), (3, None), (None, 2), (0, 0), (13, 8)]:
+                yield {"k": "fsd", "sd": {"type": ty, "dots": dots, "actual": a, "normal": n}}
+    # 9f. keyword defaults left out
+    for t in (0, 1, 0.5, 2.25, 61):
+        yield {"k": "dflt", "f": "s2t", "args": [t]}
+        yield {"k": "dflt", "f": "s2t", "args": [t, 600000]}
+        yield {"k": "dflt", "f": "t2s", "args": [int(t * 960)]}
+        yield {"k": "dflt", "f": "t2s", "args": [int(t * 960), 600000]}
+    for f in range(-9, 10):
+        yield {"k": "dflt", "f": "f2k", "args": [f]}
+    for qual in ["d", "m", "M", "P", "A", "X"]:
+        for n in (1, 3, 5, 7, 8, 14):
+            yield {"k": "dflt", "f": "iv", "args": [n, qual]}
+    for p in range(-3, 132, 6):
+        yield {"k": "dflt", "f": "m2f", "args": [p]}
+    # 9g. number types of every numeric argument
+    for c in ty_cases(rng, tier):
+        yield c
     # 10. seconds <-> ticks (sampled)
     n = 1500 if tier == "quick" else 60000
     for _ in range(n):
@@ -138,9 +311,346 @@ def cases(rng, tier):
                "dtype": rng.choice(["float64", "float64", "int64", "int32", "float32", "0d"]),
                "dir": rng.choice(["t2s", "t2s", "s2t"])}
     # 11. frequency <-> pitch (oracle only)
-    for a4 in (415.0, 440.0, 442.0):
-        for p in range(0, 128):
+    for a4 in (415.0, 440.0, 442.0, 392.0, 432, 466.1637615180899, 444.5):
+        for p in range(-36, 180):
             yield {"k": "freq", "p": p, "a4": a4}
+
+
+# ---------------------------------------------------------------------------------- number types (round 5)
+# name -> (positions of the numeric arguments that are typed, forms allowed, kind of number each position takes)
+#   kind "i": an integer is expected (integer types only);  "r": any real number (integer and float types)
+TY = {
+    "m2f":  {"pos": {0: "r", 1: "r"}, "forms": ("s", "0d", "1d")},   # (pitch, a4)
+    "f2m":  {"pos": {0: "r", 1: "r"}, "forms": ("s", "0d", "1d")},   # (freq, a4)
+    "s2t":  {"pos": {0: "r", 1: "i", 2: "i"}, "forms": ("s", "0d", "1d")},   # (seconds, mpq, ppq)
+    "t2s":  {"pos": {0: "r", 1: "i", 2: "i"}, "forms": ("s", "0d", "1d")},   # (ticks, mpq, ppq)
+    "s2m":  {"pos": {0: "i", 1: "i"}, "forms": ("s", "0d")},         # (octave, alter, step)
+    "m2s":  {"pos": {0: "r"}, "forms": ("s", "0d")},                 # (pitch,)
+    "s2n":  {"pos": {0: "i", 1: "i"}, "forms": ("s",)},              # (alter, octave, step)
+    "epsf": {"pos": {0: "r", 1: "r"}, "forms": ("s", "0d")},         # (alter, octave, step)
+    "f2k":  {"pos": {0: "i", 1: "r"}, "forms": ("s", "0d")},         # (fifths, mode number)
+    "kmi":  {"pos": {0: "r"}, "forms": ("s",)},                      # (mode number,)
+    "kim":  {"pos": {0: "r"}, "forms": ("s",)},
+    "cis":  {"pos": {0: "i"}, "forms": ("s",)},                      # (clef code,)
+    "pc":   {"pos": {0: "i"}, "forms": ("s", "0d")},                 # (alter, step)
+    "asign": {"pos": {0: "i"}, "forms": ("s",)},                     # (alter,)
+    "tqt":  {"pos": {0: "r"}, "forms": ("s", "0d")},                 # (tempo, unit)
+    "mpq":  {"pos": {0: "r"}, "forms": ("s",)},                      # (bpm, unit)
+    "s2num": {"pos": {0: "r", 1: "i", 2: "i", 3: "i"}, "forms": ("s",)},   # (divs, dots, actual, normal, type)
+    "ivs":  {"pos": {0: "i"}, "forms": ("s",)},                      # (number, quality)
+    "ivq":  {"pos": {0: "i", 1: "i"}, "forms": ("s",)},              # (step, number, quality)
+    "tupm": {"pos": {0: "i", 1: "i"}, "forms": ("s",)},              # (actual, normal, actual_type, normal_type)
+}
+
+
+def _types_for(kind, vals, bool_ok=False):
+    ts = (["int"] + INT_T) if kind == "i" else ALL_T
+    if bool_ok:
+        ts = ts + ["bool"]
+    return [t for t in ts if all(fits(v, t) for v in vals)]
+
+
+def ty_cases(rng, tier):
+    """typed-argument cases: {"k": "ty", "f", "args" (Python numbers), "types" (one name per argument or None),
+    "form" s | 0d | 1d, "col" (the values of argument 0 when form is 1d)}"""
+    thorough = tier != "quick"
+
+    def emit(f, rows, fixed, others=None, bool_ok=False):
+        """rows: values of argument 0 (one case per value for s / 0d, one per chunk for 1d); fixed: the other arguments;
+        others: types tried for the other typed positions (default: each alone, the rest plain)"""
+        spec = TY[f]
+        k0 = spec["pos"][0]
+        other_pos = [i for i in spec["pos"] if i != 0]
+        for t0 in _types_for(k0, [], bool_ok):
+            rows_t = [v for v in rows if fits(v, t0)]
+            if not rows_t:
+                continue
+            for form in spec["forms"]:
+                if form == "0d" and t0 in ("int", "float", "bool"):
+                    continue
+                combos = [None]
+                if others is not None:
+                    combos = others
+                elif other_pos:
+                    # the other typed arguments share the type of argument 0 when it holds them, else stay plain
+                    combos = [None, "same"]
+                for oc in combos:
+                    types = [None] * (1 + len(fixed))
+                    types[0] = t0
+                    for i in other_pos:
+                        cand = t0 if oc == "same" else (oc[i] if isinstance(oc, dict) else None)
+                        if cand is not None and cand != "bool" and spec["pos"][i] == "i" and cand in ("float", "float32", "float64"):
+                            cand = None
+                        if cand is not None and fits(fixed[i - 1], cand):
+                            types[i] = cand
+                    if oc == "same" and all(types[i] is None for i in other_pos):
+                        continue
+                    yield {"k": "ty", "f": f, "args": [rows_t[0]] + list(fixed), "types": types, "form": form, "col": list(rows_t)}
+
+    def chunks(xs, n):
+        return [xs[i:i + n] for i in range(0, len(xs), n)]
+
+    step = 1
+    # pitch -> frequency: every MIDI pitch, in every type that holds it; the tuning in several types too
+    for a4, ta4 in [(440.0, None), (415, "int16"), (442.0, "float32"), (440, "uint16"), (432, "int"), (466, "float")]:
+        # (the chunks of the piano range first, so that a failure is reported on an ordinary pitch when there is one)
+        chs = chunks(list(range(0, 128, step)), 8)
+        chs = chs[7:9] + chs[:7] + chs[9:]
+        for ch in chs + [list(range(-12, 0)), [60.5, 69.25, 0.5]]:
+            if a4 != 440.0 and not thorough and ch[0] not in (0, 8, 56, 64, 120, -12):
+                continue
+            for c in emit("m2f", ch, [a4], others=[{1: ta4}]):
+                yield c
+    # frequency -> pitch: integer frequencies in the integer types that hold them, equal-tempered ones in the floats
+    ifreq = [28, 55, 110, 131, 262, 440, 880, 1000, 1047, 2000, 2048, 2093, 4000, 4186, 8000, 12000, 20000]
+    for a4, ta4 in [(440.0, None), (440, "int16"), (440, "uint16"), (415, "int32"), (442.0, "float32")]:
+        for ch in [[v] for v in ifreq] + [ifreq[:5], ifreq[5:9]]:
+            for c in emit("f2m", ch, [a4], others=[{1: ta4}]):
+                yield c
+    etf = [float(440.0 * 2 ** ((q - 69) / 12)) for q in range(0, 128, 5)]
+    for ch in chunks(etf, 6):
+        for t0 in ("float", "float64", "float32"):
+            col = [float(np.float32(v)) for v in ch] if t0 == "float32" else ch
+            for form in ("s", "0d", "1d"):
+                if form == "0d" and t0 == "float":
+                    continue
+                yield {"k": "ty", "f": "f2m", "args": [col[0], 440.0], "types": [t0, None], "form": form, "col": col}
+    # seconds <-> ticks
+    for mpq, ppq in [(500000, 480), (250000, 96), (1000000, 24), (60000, 120), (600000, 960)]:
+        for ch in [[0, 1, 2, 3], [7, 30, 100], [127, 200, 255], [300, 599, 30000], [0.25, 1.5, 59.75]]:
+            for c in emit("s2t", ch, [mpq, ppq]):
+                if "float32" not in c["types"]:
+                    yield c
+        for ch in [[0, 1, 2, 96], [100, 127, 255], [480, 960, 32767], [65535, 100000, 10**6], [0.5, 960.25]]:
+            for c in emit("t2s", ch, [mpq, ppq]):
+                yield c
+    # spelling <-> pitch
+    for st in STEPS:
+        for al in (-2, -1, 0, 1, 2):
+            for c in emit("s2m", [-1, 0, 4, 9], [al, st]):
+                # the sum is formed in the argument types: keep the cases whose result they can hold
+                keep = [o for o in c["col"] if all(fits(x, t) for t in c["types"] if t for x in (
+                    (o + 1) * 12 + BASE[st] + al, (o + 1) * 12, (o + 1) * 12 + BASE[st], 12))]
+                if keep:
+                    c["col"], c["args"][0] = keep, keep[0]
+                    yield c
+    for ch in chunks(list(range(0, 128)), 128) + [list(range(-24, 0))] + [[60.0, 61.0, 0.0, 11.0]]:
+        for c in emit("m2s", ch, []):
+            yield c
+    for al in (-3, -1, 0, 1, 2, 3):
+        for c in emit("s2n", [al], [4, "C"]):
+            yield c
+        for c in emit("asign", [al], []):
+            if -2 <= al <= 2:
+                yield c
+        for c in emit("pc", [al], ["B"]):
+            yield c
+    for al, oc in [(1, 4), (-2, -1), (0, 0), (1.5, 4), (-1.5, 3.9), (2.0, 9.0)]:
+        for c in emit("epsf", [al], [oc, "c"]):
+            yield c
+    # keys and codes
+    for f in range(-7, 8):
+        for m in (1, -1):
+            for c in emit("f2k", [f], [m], others=[None] + [{1: t} for t in _types_for("r", [m], bool_ok=True)]):
+                yield c
+    for m in (1, -1):
+        for c in emit("kmi", [m], [], bool_ok=True):
+            yield c
+        for c in emit("kim", [m], [], bool_ok=True):
+            yield c
+    for code in range(0, 7):
+        for c in emit("cis", [code], []):
+            yield c
+    # tempo and durations
+    units = ["long", "breve", "whole", "h", "q", "q.", "e..", "16th", "256th..."]
+    for u in units:
+        for c in emit("tqt", [1, 60, 100, 127, 200, 255, 300, 60.5], [u]):
+            yield c
+        for c in emit("mpq", [30, 100, 127, 240, 90.5], [u]):
+            yield c
+    for ty in ["long", "breve", "whole", "quarter", "eighth", "256th"]:
+        for dots, a, n in [(0, 1, 1), (1, 3, 2), (3, 7, 8), (2, 5, 4)]:
+            for c in emit("s2num", [1, 4, 100, 127, 255, 480, 960, 10080, 2.5], [dots, a, n, ty]):
+                yield c
+    for qual, nums in [("M", (2, 3, 6, 7)), ("P", (1, 4, 5)), ("d", (1, 7)), ("AA", (4, 6))]:
+        for n in nums:
+            for c in emit("ivs", [n], [qual]):
+                yield c
+            for k in (-1, 1, 2):
+                for c in emit("ivq", [k], [n, qual]):
+                    yield c
+    for a, n in [(3, 2), (5, 4), (7, 8), (13, 8), (3, 5)]:
+        for at, nt in [("eighth", "eighth"), ("quarter", "eighth"), ("16th", "quarter"), (None, None)]:
+            for c in emit("tupm", [a], [n, at, nt]):
+                yield c
+
+
+def _ty_fn(M, S, f):
+    """the conversion named f with its typed arguments first"""
+    def ivq(k, n, q):
+        iv = S.Interval(n, q)
+        iv.change_quality(k)
+        return (str(iv.quality), iv.semitones)
+
+    def s2num(divs, dots, a, n, ty):
+        return M.symbolic_to_numeric_duration({"type": ty, "dots": dots, "actual_notes": a, "normal_notes": n}, divs)
+
+    return {
+        "m2f": lambda p, a4: M.midi_pitch_to_frequency(p, a4),
+        "f2m": lambda fr, a4: M.frequency_to_midi_pitch(fr, a4),
+        "s2t": lambda t, mpq, ppq: M.seconds_to_midi_ticks(t, mpq, ppq),
+        "t2s": lambda k, mpq, ppq: M.midi_ticks_to_seconds(k, mpq, ppq),
+        "s2m": lambda o, a, st: M.pitch_spelling_to_midi_pitch(st, a, o),
+        "m2s": lambda p: M.midi_pitch_to_pitch_spelling(p),
+        "s2n": lambda a, o, st: M.pitch_spelling_to_note_name(st, a, o),
+        "epsf": lambda a, o, st: M.ensure_pitch_spelling_format(st, a, o),
+        "f2k": lambda fi, m: M.fifths_mode_to_key_name(fi, m),
+        "kmi": lambda m: M.key_mode_to_int(m),
+        "kim": lambda m: M.key_int_to_mode(m),
+        "cis": lambda c: M.clef_int_to_sign(c),
+        "pc": lambda a, st: M.step2pc(st, a),
+        "asign": lambda a: S.Note(step="C", octave=4, alter=a).alter_sign,
+        "tqt": lambda t, u: M.to_quarter_tempo(u, t),
+        "mpq": lambda b, u: S.Tempo(b, u).microseconds_per_quarter,
+        "s2num": s2num,
+        "ivs": lambda n, q: S.Interval(n, q).semitones,
+        "ivq": ivq,
+        "tupm": lambda a, n, at, nt: S.Tuplet(None, None, actual_notes=a, normal_notes=n, actual_type=at,
+                                              normal_type=nt).duration_multiplier,
+    }[f]
+
+
+def _arg_token(v):
+    """epsf argument kinds: int / other number"""
+    return "i:%d" % v if float(v).is_integer() and isinstance(v, int) else "n:" + W.q(v)
+
+
+def _ty_req(f, a):
+    """the driver request for the VALUES a (None: this observation has no exact model answer)"""
+    if f == "m2f":
+        return "m2f %s %s" % (W.q(a[0]), W.q(a[1]))
+    if f == "s2t":
+        exact = Fraction(10**6) * a[2] * W.as_fraction(a[0]) / a[1]
+        if abs(exact - math.floor(exact) - Fraction(1, 2)) < Fraction(1, 10**6):
+            return None
+        return "sec2tick %s %d %d" % (W.q(a[0]), a[1], a[2])
+    if f == "t2s":
+        return "tick2sec %s %d %d" % (W.q(a[0]), a[1], a[2])
+    if f == "s2m":
+        return "s2m %s %d %d" % (W.s(a[2]), a[1], a[0])
+    if f == "m2s":
+        return "m2s %d" % a[0]
+    if f == "s2n":
+        return "s2n %s %d %d" % (W.s(a[2]), a[0], a[1])
+    if f == "epsf":
+        return "epsf %s %s %s" % (W.s(a[2]), _arg_token(a[0]), _arg_token(a[1]))
+    if f == "f2k":
+        return "f2k %d %s" % (a[0], lit(a[1]))
+    if f in ("kmi", "kim"):
+        return "%s %s" % (f, lit(a[0]))
+    if f == "cis":
+        return "cis %d" % a[0]
+    if f == "pc":
+        return "step2pc %s %d" % (W.s(a[1]), a[0])
+    if f == "asign":
+        return "asign %d" % a[0]
+    if f == "tqt":
+        return "tqt %s %s" % (W.s(a[1]), W.q(a[0]))
+    if f == "mpq":
+        return "mpq %s %s" % (W.s(a[1]), W.q(a[0]))
+    if f == "s2num":
+        return "s2num %s %d %d %d %s" % (W.s(a[4]), a[1], a[2], a[3], W.q(a[0]))
+    if f == "ivs":
+        return "ivs %s %d" % (W.s(a[1]), a[0])
+    if f == "ivq":
+        return "ivq %s %d %d" % (W.s(a[2]), a[1], a[0])
+    if f == "tupm":
+        return "tupm %d %d %s %s" % (a[0], a[1], W.opt(W.s, a[2]), W.opt(W.s, a[3]))
+    return None
+
+
+_TY_FLOAT = ("m2f", "t2s", "tqt", "s2num")      # results that are binary64 values of an exact rational
+_TY_STR = ("asign",)                            # results the driver prints with the `s:` prefix
+
+
+def _ty_impl(f, res, tol):
+    n = norm(res)
+    if f in _TY_FLOAT:
+        return ("@approx", float(n[1]), max(tol, 1e-12)) if isinstance(n, tuple) and n[0] == "n" else repr(n)
+    if f in _TY_STR:
+        return "s:" + str(n)
+    return _txt(n)
+
+
+def _eval_ty(d, ev, M, S):
+    f, args, types, form = d["f"], list(d["args"]), d["types"], d["form"]
+    fn = _ty_fn(M, S, f)
+    f32 = any(t == "float32" for t in types if t)
+    tol = Fraction(1, 10**5) if f32 else (Fraction(1, 10**12) if f in _TY_FLOAT + ("f2m",) else 0)
+    if f == "f2m":
+        tol = 0
+    col = d.get("col") or [args[0]]
+    rest = [mk(a, t, "s") for a, t in zip(args[1:], types[1:])]
+    if form == "1d":
+        dt = {"int": "int64", "float": "float64"}.get(types[0], types[0])
+        arg0 = np.array(col, dtype=dt)
+        keep = arg0.copy()
+        r, e = call(fn, arg0, *rest)
+        if not np.array_equal(arg0, keep):
+            ev.oracle.append("types: %s changed the caller's %s array" % (f, dt))
+        if e is None:
+            if not (isinstance(r, np.ndarray) and r.shape == (len(col),)):
+                ev.oracle.append("types: %s(%s array of %d values) returned %r" % (f, dt, len(col), r))
+                return
+            outs = [(r[i], None) for i in range(len(col))]
+        else:
+            outs = [(None, e)] * len(col)
+    else:
+        outs = [call(fn, mk(v, types[0], form), *rest) for v in col]
+    shown = "%s(%s) as %s%s" % (f, ", ".join(repr(x) for x in args), "/".join(str(t) for t in types),
+                                "" if form == "s" else " " + form)
+    for v, (res, e) in zip(col, outs):
+        a = [v] + args[1:]
+        ref, eref = call(fn, *a)
+        if eref is not None:
+            continue  # the values themselves are rejected: nothing to agree with
+        if e is not None:
+            if isinstance(e, OverflowError):
+                continue  # NumPy refuses to combine a Python integer with a type that cannot hold it
+            ev.oracle.append("types: %s [value %r] raises %r; with Python numbers %r" % (shown, v, e, ref))
+            q = _ty_req(f, a)
+            if q is not None:
+                ev.requests.append(q)
+                ev.impl.append("err")
+            continue
+        if not same(norm(res), norm(ref), tol):
+            ev.oracle.append("types: %s [value %r] = %r; the same values as Python numbers give %r" % (shown, v, res, ref))
+        q = _ty_req(f, a)
+        if f == "m2f" and (W.as_fraction(v) - 9) % 12 != 0:
+            q = None  # the model is exact on whole octaves from the reference pitch only
+        if q is not None and not (f32 and f not in _TY_FLOAT):
+            ev.requests.append(q)
+            ev.impl.append(_ty_impl(f, res, float(tol)))
+        if f == "m2f":
+            # the typed result, as it is, goes back through frequency_to_midi_pitch
+            b, e2 = call(M.frequency_to_midi_pitch, res, rest[0])
+            if float(v).is_integer() and (e2 is not None or b is None or int(b) != int(v)):
+                ev.oracle.append("types: frequency->pitch: %s [value %r] -> %r -> %r" % (shown, v, res, e2 or b))
+        if f == "f2m":
+            x = 12 * math.log2(float(v) / float(args[1])) + 69
+            if abs(x - math.floor(x) - 0.5) > 1e-6 and int(norm(res)[1]) != round(x):
+                ev.oracle.append("types: %s [value %r] = %r, equal temperament says %d" % (shown, v, res, round(x)))
+
+
+def _tuplet_oracle(ev, a, n, at, nt, r, e):
+    """multiplier = normal_notes * dur(normal_type) / (actual_notes * dur(actual_type)), exactly"""
+    known = (at is None and nt is None) or (at in VAL and nt in VAL)
+    if not known or a == 0:
+        return
+    exp = Fraction(n, a) if at is None else Fraction(n, a) * VAL[nt] / VAL[at]
+    if e or not isinstance(r, Fraction) or r != exp:
+        ev.oracle.append("tuplet: %d %s in the time of %d %s: duration_multiplier = %r, defined value %s" % (
+            a, at or "notes", n, nt or "notes", e or r, exp))
 
 
 def call(f, *a, **kw):
@@ -222,10 +732,18 @@ def evaluate(d):
     elif k == "f2k":
         f, mode = d["f"], d["mode"]
         r, e = call(M.fifths_mode_to_key_name, f, mode)
-        ev.requests.append("f2k %d %s" % (f, W.s(mode)))
+        ev.requests.append("f2k %d %s" % (f, lit(mode)))
         ev.impl.append("err" if e else r)
-        okmode = mode in MODES
-        if okmode and -7 <= f <= 7:
+        okmode = any(mode is m or (type(mode) is type(m) and mode == m) for m in MODES)
+        if not okmode and any(type(mode) is type(m) and mode == m for m in MODES_TYPED):
+            # 1.0 / -1.0 / True: the number 1 or -1 in another type - accepted or not, never another key
+            if not e and -7 <= f <= 7:
+                exp = (MIN[f + 7] + "m") if mode == -1 else MAJ[f + 7]
+                if r != exp:
+                    ev.oracle.append("fifths_mode_to_key_name(%r,%r) = %r: the number %r means %r" % (f, mode, r, mode, exp))
+            elif not e:
+                ev.oracle.append("fifths_mode_to_key_name(%r,%r) = %r: value outside -7..7 must be rejected" % (f, mode, r))
+        elif okmode and -7 <= f <= 7:
             minor = mode in ("minor", -1)
             exp = (MIN[f + 7] + "m") if minor else MAJ[f + 7]
             if e or r != exp:
@@ -254,13 +772,21 @@ def evaluate(d):
     elif k == "mode":
         mode = d["mode"]
         r, e = call(M.key_mode_to_int, mode)
-        ev.requests.append("kmi %s" % W.s(mode))
+        ev.requests.append("kmi %s" % lit(mode))
         ev.impl.append("err" if e else W.f_int(r))
         r2, e2 = call(M.key_int_to_mode, mode)
-        ev.requests.append("kim %s" % W.s(mode))
+        ev.requests.append("kim %s" % lit(mode))
         ev.impl.append("err" if e2 else r2)
-        if mode in MODES:
+        okmode = any(mode is m or (type(mode) is type(m) and mode == m) for m in MODES)
+        if not okmode and any(type(mode) is type(m) and mode == m for m in MODES_TYPED):
+            if not e and r != (-1 if mode == -1 else 1):
+                ev.oracle.append("key_mode_to_int(%r) = %r: the number %r is %d" % (mode, r, mode, -1 if mode == -1 else 1))
+            if not e2 and r2 != ("minor" if mode == -1 else "major"):
+                ev.oracle.append("key_int_to_mode(%r) = %r" % (mode, r2))
+        elif okmode:
             minor = mode in ("minor", -1)
+            if e2 or r2 != ("minor" if minor else "major"):
+                ev.oracle.append("key_int_to_mode(%r) = %r" % (mode, e2 or r2))
             if e or r != (-1 if minor else 1):
                 ev.oracle.append("key_mode_to_int(%r) = %r" % (mode, e or r))
             else:
@@ -268,8 +794,11 @@ def evaluate(d):
                 if e3 or b != ("minor" if minor else "major"):
                     ev.oracle.append("mode code does not decode: %r -> %r -> %r" % (mode, r, e3 or b))
             key = "mode"
-        elif not e:
-            ev.oracle.append("key_mode_to_int accepted unknown mode %r" % (mode,))
+        else:
+            if not e:
+                ev.oracle.append("key_mode_to_int accepted unknown mode %r" % (mode,))
+            if not e2:
+                ev.oracle.append("key_int_to_mode accepted unknown mode %r" % (mode,))
     elif k == "clef":
         c = d["sign"]
         r, e = call(M.clef_sign_to_int, c)
@@ -299,10 +828,6 @@ def evaluate(d):
 
         base = u.strip().rstrip(".")
         dots = u.count(".")
-        DM = [Fraction(1), Fraction(3, 2), Fraction(7, 4), Fraction(15, 8)]
-        VAL = {"long": 16, "breve": 8, "whole": 4, "half": 2, "h": 2, "quarter": 1, "q": 1, "eighth": Fraction(1, 2),
-               "e": Fraction(1, 2), "16th": Fraction(1, 4), "32nd": Fraction(1, 8), "64th": Fraction(1, 16),
-               "128th": Fraction(1, 32), "256th": Fraction(1, 64)}
         if base in VAL and dots <= 3 and "." not in base:
             exp = W.as_fraction(t) * DM[dots] * VAL[base]
             if e or abs(Fraction(*float(r).as_integer_ratio()) - exp) > Fraction(1, 10**9):
@@ -314,6 +839,11 @@ def evaluate(d):
         r, e = call(lambda: t.microseconds_per_quarter)
         ev.requests.append("mpq %s %s" % (W.opt(W.s, u), W.q(bpm)))
         ev.impl.append("err" if e else W.f_int(r))
+        if u is None or u in VAL:
+            # microseconds per quarter = 60 * 10^6 / (quarters per minute), to the nearest integer; no unit = quarters
+            exact = Fraction(60 * 10**6) / (W.as_fraction(bpm) * VAL[u or "q"])
+            if e or abs(r - exact) > Fraction(1, 2) + Fraction(1, 10**6):
+                ev.oracle.append("Tempo(%r, %r).microseconds_per_quarter = %r, defined value %s" % (bpm, u, e or r, float(exact)))
         key = "mpq"
     elif k == "s2num":
         sd = {"type": d["type"], "dots": d["dots"]}
@@ -330,7 +860,7 @@ def evaluate(d):
     elif k == "iv":
         qual, n, dr = d["q"], d["n"], d["dir"]
         iv, e = call(S.Interval, n, qual, dr)
-        ev.requests.append("ivv %s %d %s" % (W.s(qual), n, W.s(dr)))
+        ev.requests.append("ivv %s %d %s" % (W.s(qual), n, W.s(dr)))  # (a direction named "D" never occurs)
         ev.impl.append("0" if e else "1")
         if not e:
             r, e2 = call(lambda: iv.semitones)
@@ -427,7 +957,135 @@ def evaluate(d):
         r, e = call(lambda: t.duration_multiplier)
         ev.requests.append("tupm %d %d %s %s" % (d["actual"], d["normal"], W.s(d["at"]), W.s(d["nt"])))
         ev.impl.append("err" if e else W.f_rat(Fraction(r)))
+        _tuplet_oracle(ev, d["actual"], d["normal"], d["at"], d["nt"], r, e)
         key = "tup"
+    elif k == "tupx":
+        for n in d["normals"]:
+            t = S.Tuplet(None, None, actual_notes=d["actual"], normal_notes=n, actual_type=d["at"], normal_type=d["nt"])
+            r, e = call(lambda: t.duration_multiplier)
+            ev.requests.append("tupm %d %d %s %s" % (d["actual"], n, W.opt(W.s, d["at"]), W.opt(W.s, d["nt"])))
+            ev.impl.append("err" if e else (W.f_rat(r) if isinstance(r, Fraction) else repr(r)))
+            _tuplet_oracle(ev, d["actual"], n, d["at"], d["nt"], r, e)
+        key = "tupx"
+    elif k == "epsf":
+        st, al, oc = d["step"], d["alter"], d["oct"]
+        r, e = call(M.ensure_pitch_spelling_format, st, al["v"], oc["v"])
+        tok_a = {"sign": lambda v: "s:" + W.s(v), "int": lambda v: "i:%d" % v, "float": lambda v: "n:" + W.q(v),
+                 "none": lambda v: "-"}[al["t"]](al["v"])
+        tok_o = {"str": lambda v: "s:" + W.s(v), "int": lambda v: "i:%d" % v, "float": lambda v: "n:" + W.q(v),
+                 "none": lambda v: "-"}[oc["t"]](oc["v"])
+        ev.requests.append("epsf %s %s %s" % (W.s(st), tok_a, tok_o))
+        ev.impl.append("err" if e else _txt(norm(tuple(r))))
+        # oracle: a letter of the scale (either case) or the rest letter, a known sign or an integer, an integer octave
+        okstep = st.lower() in ("c", "d", "e", "f", "g", "a", "b", "r") and len(st) == 1
+        if okstep and ((al["t"] == "sign" and al["v"] in SIGNS) or al["t"] in ("int", "none")) and oc["t"] in ("int", "none"):
+            exp = (st.upper(), SIGNS[al["v"]] if al["t"] == "sign" else al["v"], oc["v"])
+            if e or tuple(r) != exp:
+                ev.oracle.append("ensure_pitch_spelling_format(%r,%r,%r) = %r, expected %r" % (st, al["v"], oc["v"], e or r, exp))
+            elif st.lower() != "r" and None not in exp:
+                again, e2 = call(M.ensure_pitch_spelling_format, *r)
+                if e2 or tuple(again) != tuple(r):
+                    ev.oracle.append("ensure_pitch_spelling_format is not idempotent on %r: %r" % (r, e2 or again))
+            key = "epsf"
+        # (which other steps are rejected is compared with the model only: the property does not say)
+    elif k == "pc":
+        st, al = d["step"], d["alter"]
+        r, e = call(M.step2pc, st, al)
+        ev.requests.append("step2pc %s %d" % (W.s(st), al))
+        ev.impl.append("err" if e else W.f_int(r))
+        if st in BASE:
+            exp = (BASE[st] + al) % 12
+            if e or r != exp:
+                ev.oracle.append("step2pc(%r,%r) = %r, twelve-tone arithmetic says %d" % (st, al, e or r, exp))
+            mp, e2 = call(M.pitch_spelling_to_midi_pitch, st, al, 4)
+            if not e and (e2 or mp % 12 != r):
+                ev.oracle.append("step2pc(%r,%r) = %r but the spelled pitch is %r" % (st, al, r, e2 or mp))
+            key = "pc"
+    elif k == "asign":
+        st, al, oc = d["step"], d["alter"], d["oct"]
+        nt = S.Note(step=st, octave=oc, alter=al)
+        r, e = call(lambda: nt.alter_sign)
+        ev.requests.append("asign %s" % W.opt(W.i, al))
+        ev.impl.append("err" if e else "s:" + str(r))
+        if al is None or -2 <= al <= 2:
+            nm, e2 = call(M.pitch_spelling_to_note_name, st, al or 0, oc)
+            if e or e2 or "%s%s%d" % (st, r, oc) != nm:
+                ev.oracle.append("Note(%r, alter=%r).alter_sign = %r but the note is called %r" % (st, al, e or r, e2 or nm))
+            key = "asign"
+    elif k == "fsd":
+        sd = d["sd"]
+        if sd is None:
+            arg, req = None, "fsd N"
+        else:
+            arg = {}
+            if sd["type"] is not None:
+                arg["type"] = sd["type"]
+            if sd["dots"] is not None:
+                arg["dots"] = sd["dots"]
+            if sd["actual"] is not None:
+                arg["actual_notes"] = sd["actual"]
+            if sd["normal"] is not None:
+                arg["normal_notes"] = sd["normal"]
+            req = "fsd %s %s %s %s" % (W.opt(W.s, sd["type"]), W.opt(W.i, sd["dots"]), W.opt(W.i, sd["actual"]), W.opt(W.i, sd["normal"]))
+        r, e = call(M.format_symbolic_duration, arg)
+        ev.requests.append(req)
+        ev.impl.append("err" if e else "s:" + str(r))
+        # compared with the model only (the property names no format); C12.tempo_unit_roundtrip is the model's theorem
+        if sd is not None and sd["type"] in VAL and not e:
+            key = "fsd"
+    elif k == "dflt":
+        # keyword arguments left out.  The oracle demands only what the property says: the conversions still invert
+        # each other when BOTH are called with the same arguments left out, and a mode left out is the mode None
+        f, a = d["f"], d["args"]
+        if f == "s2t":
+            r, e = call(M.seconds_to_midi_ticks, *a)
+            ev.requests.append("sec2tick %s %s D" % (W.q(a[0]), "D" if len(a) < 2 else "%d" % a[1]))
+            ev.impl.append("err" if e else W.f_int(r))
+            if e:
+                ev.oracle.append("seconds_to_midi_ticks%r raised %r" % (tuple(a), e))
+            else:
+                sec, e2 = call(M.midi_ticks_to_seconds, r, *a[1:])
+                back, e3 = call(M.seconds_to_midi_ticks, sec, *a[1:]) if not e2 else (None, e2)
+                if e3 or back != r:
+                    ev.oracle.append("defaults: ticks->seconds->ticks with the same arguments left out: %r -> %r -> %r" % (r, e2 or sec, e3 or back))
+        elif f == "t2s":
+            r, e = call(M.midi_ticks_to_seconds, *a)
+            ev.requests.append("tick2sec %s %s D" % (W.q(a[0]), "D" if len(a) < 2 else "%d" % a[1]))
+            ev.impl.append("err" if e else ("@approx", float(r), 1e-12))
+            if e:
+                ev.oracle.append("midi_ticks_to_seconds%r raised %r" % (tuple(a), e))
+            else:
+                back, e3 = call(M.seconds_to_midi_ticks, r, *a[1:])
+                if e3 or back != a[0]:
+                    ev.oracle.append("defaults: ticks->seconds->ticks with the same arguments left out: %r -> %r -> %r" % (a[0], r, e3 or back))
+        elif f == "f2k":
+            r, e = call(M.fifths_mode_to_key_name, *a)
+            ev.requests.append("f2k %d D" % a[0])
+            ev.impl.append("err" if e else r)
+            if -7 <= a[0] <= 7:
+                if e or r != MAJ[a[0] + 7]:
+                    ev.oracle.append("fifths_mode_to_key_name(%d) = %r, a mode left out is major: %r" % (a[0], e or r, MAJ[a[0] + 7]))
+            elif not e:
+                ev.oracle.append("fifths_mode_to_key_name(%d) = %r: value outside -7..7 must be rejected" % (a[0], r))
+        elif f == "iv":
+            iv, e = call(S.Interval, *a)
+            ev.requests.append("ivv %s %d D" % (W.s(a[1]), a[0]))
+            ev.impl.append("0" if e else "1")
+        else:  # m2f
+            r, e = call(M.midi_pitch_to_frequency, *a)
+            if (a[0] - 9) % 12 == 0:
+                ev.requests.append("m2f %d D" % a[0])
+                ev.impl.append("err" if e else ("@approx", float(r), 1e-12))
+            if e:
+                ev.oracle.append("midi_pitch_to_frequency(%d) raised %r" % (a[0], e))
+            else:
+                b, e3 = call(M.frequency_to_midi_pitch, r)
+                if e3 or b != a[0]:
+                    ev.oracle.append("default tuning: midi_pitch_to_frequency(%d) = %r goes back to %r" % (a[0], r, e3 or b))
+        key = "dflt"
+    elif k == "ty":
+        _eval_ty(d, ev, M, S)
+        key = "ty"
     elif k == "s2t":
         t, mpq, ppq = d["t"], d["mpq"], d["ppq"]
         exact = Fraction(10**6) * ppq * Fraction(*float(t).as_integer_ratio()) / mpq
@@ -478,6 +1136,9 @@ def evaluate(d):
     elif k == "freq":
         p, a4 = d["p"], d["a4"]
         f, e = call(M.midi_pitch_to_frequency, p, a4)
+        if (p - 9) % 12 == 0:
+            ev.requests.append("m2f %d %s" % (p, W.q(a4)))
+            ev.impl.append("err" if e else ("@approx", float(f), 1e-12))
         if e:
             ev.oracle.append("midi_pitch_to_frequency(%d) raised %r" % (p, e))
         else:
@@ -495,6 +1156,16 @@ def evaluate(d):
     return ev
 
 
+def shrink(d):
+    """list-valued cases: one value of the list at a time"""
+    if d.get("k") == "ty" and len(d.get("col") or []) > 1:
+        for v in d["col"]:
+            yield dict(d, col=[v], args=[v] + list(d["args"][1:]))
+    if d.get("k") == "tupx" and len(d["normals"]) > 1:
+        for n in d["normals"]:
+            yield dict(d, normals=[n])
+
+
 def finding_key(d, f):
     return d["k"] + ":" + f.split(":")[0].split("(")[0]
 
@@ -504,8 +1175,38 @@ def distribution(descs, results):
 
     c = Counter(d["k"] for d in descs)
     errs = sum(1 for r in results for x in r["impl"] if x == "err")
-    return {"by_kind": dict(c), "error_observations": errs}
+    obs = Counter()
+    for d, r in zip(descs, results):
+        for q, im in zip(r["requests"], r["impl"]):
+            obs[q.split(" ")[0] + (":err" if im == "err" else "")] += 1
+    ty = [d for d in descs if d["k"] == "ty"]
+    ty_f = Counter(d["f"] for d in ty)
+    ty_t = Counter("%s/%s" % (d["types"][0], d["form"]) for d in ty)
+    ty_other = Counter(t for d in ty for t in d["types"][1:] if t)
 
-LEVEL_TEXT = ("Lean 4 theorems (unbounded over octaves/pitches/ticks; whole regenerated tables by kernel decision) about an "
-              "executable model of the conversion functions; the model is tied to the code by regenerating every table "
-              "from /repo on each run and by an exhaustive differential run over the finite domains the property names.")
+    def tup_branch(d):
+        if d["actual"] == 0:
+            return "no actual notes (rejected)"
+        if d["at"] == d["nt"]:
+            return "both absent" if d["at"] is None else "equal types"
+        if d["at"] is None or d["nt"] is None:
+            return "one type absent (rejected)"
+        if d["nt"] not in VAL:
+            return "unknown type (rejected)"
+        return "longer actual type" if VAL[d["at"]] > VAL[d["nt"]] else "shorter actual type"
+
+    tup = Counter(tup_branch(d) for d in descs if d["k"] == "tupx")
+    ep = Counter("%s/%s" % (d["alter"]["t"], d["oct"]["t"]) for d in descs if d["k"] == "epsf")
+    return {"by_kind": dict(c), "error_observations": errs, "observations_by_request": dict(obs),
+            "typed_by_function": dict(ty_f), "typed_by_type_and_form": dict(ty_t), "typed_other_arguments": dict(ty_other),
+            "tuplet_branches": dict(tup), "ensure_format_argument_kinds": dict(ep),
+            "defaults_left_out": dict(Counter(d["f"] for d in descs if d["k"] == "dflt"))}
+
+LEVEL_TEXT = ("Lean 4 theorems (unbounded over octaves/pitches/ticks/counts/mode arguments; whole regenerated tables by kernel "
+              "decision; frequency inversion over the reals with a 1% / 0.01 perturbation margin) about an executable model of "
+              "the conversion functions that includes their glue (mode membership chains, range guard before Python "
+              "indexing, ensure_pitch_spelling_format, keyword defaults, absent tuplet types); the model is tied to the code "
+              "by regenerating every module-level table AND every literal inside the function bodies (tuples, bounds, "
+              "ladders, regex classes, arithmetic constants, defaults) from /repo on each run, and by an exhaustive "
+              "differential run over the finite domains the property names, repeated for every number type of every "
+              "numeric argument.")
